@@ -2,6 +2,7 @@ package rules
 
 import (
 	"fmt"
+	"go/constant"
 	"go/token"
 	"go/types"
 	"strings"
@@ -335,3 +336,208 @@ func isProbe(c *core.Ctx, fn *ssa.Function) bool {
 	pos := c.P.Fset.Position(f.Pos())
 	return strings.HasSuffix(pos.Filename, "/test_probe.go") || strings.HasSuffix(pos.Filename, "/test_util.go")
 }
+
+// glob matches s against pattern p where '*' matches any substring.
+func glob(p, s string) bool {
+	parts := strings.Split(p, "*")
+	if len(parts) == 1 {
+		return p == s
+	}
+	if !strings.HasPrefix(s, parts[0]) {
+		return false
+	}
+	s = s[len(parts[0]):]
+	for i := 1; i < len(parts)-1; i++ {
+		k := strings.Index(s, parts[i])
+		if k < 0 {
+			return false
+		}
+		s = s[k+len(parts[i]):]
+	}
+	return strings.HasSuffix(s, parts[len(parts)-1])
+}
+
+func globAny(ps []string, s string) bool {
+	for _, p := range ps {
+		if glob(p, s) {
+			return true
+		}
+	}
+	return false
+}
+
+// descInter: provenance of v where roots that are exactly a parameter of the enclosing
+// function are replaced by the provenance of the corresponding argument at every static
+// call site (recursively, up to `levels` call levels). A parameter of a function without
+// module callers stays "param#i@Func".
+func descInter(c *core.Ctx, fn *ssa.Function, v ssa.Value, levels int) []string {
+	pv := c.P.Prov()
+	out := map[string]bool{}
+	var expand func(fn *ssa.Function, ds []string, lv int)
+	expand = func(fn *ssa.Function, ds []string, lv int) {
+		for _, d := range ds {
+			idx := -1
+			if d == "recv" {
+				idx = 0
+			} else if strings.HasPrefix(d, "param#") && !strings.ContainsAny(d[6:], " (),") {
+				fmt.Sscanf(d[6:], "%d", &idx)
+				if fn.Signature.Recv() != nil {
+					idx++
+				}
+			}
+			if idx < 0 || lv == 0 {
+				out[d] = true
+				continue
+			}
+			// closures: parameters of an anonymous function are not expanded
+			sites := c.P.CallersOf(fn)
+			n := 0
+			for _, s := range sites {
+				if isProbe(c, s.Fn) {
+					continue
+				}
+				args := s.Instr.Common().Args
+				if s.Instr.Common().IsInvoke() {
+					// receiver is Value; Args exclude it
+					if idx == 0 {
+						continue
+					}
+					if idx-1 < len(args) {
+						n++
+						expand(s.Fn, pv.Desc(args[idx-1]), lv-1)
+					}
+					continue
+				}
+				if idx < len(args) {
+					n++
+					expand(s.Fn, pv.Desc(args[idx]), lv-1)
+				}
+			}
+			if n == 0 {
+				out[d+"@"+fname(fn)] = true
+			}
+		}
+	}
+	expand(fn, pv.Desc(v), levels)
+	var res []string
+	for k := range out {
+		res = append(res, k)
+	}
+	sortStrs(res)
+	return res
+}
+
+func sortStrs(a []string) {
+	for i := 1; i < len(a); i++ {
+		for j := i; j > 0 && a[j] < a[j-1]; j-- {
+			a[j], a[j-1] = a[j-1], a[j]
+		}
+	}
+}
+
+// containsCall: does fn (or a closure nested in it) contain a call matching m.
+func containsCall(fn *ssa.Function, m func(*ssa.CallCommon) bool) bool {
+	return len(callsIn(fn, m)) > 0
+}
+
+// dispatchSites: instructions of fn that dispatch a call matching m: the calls themselves
+// (Call/Go/Defer) and MakeClosure instructions whose closure (transitively) contains one.
+func dispatchSites(fn *ssa.Function, m func(*ssa.CallCommon) bool) []ssa.Instruction {
+	var out []ssa.Instruction
+	core.Instrs(fn, func(in ssa.Instruction) {
+		switch x := in.(type) {
+		case ssa.CallInstruction:
+			if m(x.Common()) {
+				out = append(out, in)
+			}
+		case *ssa.MakeClosure:
+			if containsCall(x.Fn.(*ssa.Function), m) {
+				out = append(out, in)
+			}
+		}
+	})
+	return out
+}
+
+// isTypeAssertOK matches the ok result of `x.(T)` where T's name is typeName.
+func isTypeAssertOK(typeName string) core.VM {
+	return func(v ssa.Value) bool {
+		ex, ok := core.Strip(v).(*ssa.Extract)
+		if !ok || ex.Index != 1 {
+			return false
+		}
+		ta, ok := ex.Tuple.(*ssa.TypeAssert)
+		if !ok {
+			return false
+		}
+		t := ta.AssertedType
+		if p, ok := t.(*types.Pointer); ok {
+			t = p.Elem()
+		}
+		n, ok := t.(*types.Named)
+		return ok && n.Obj().Name() == typeName
+	}
+}
+
+// anyErr matches any value of interface type error.
+func anyErr(v ssa.Value) bool { return isErrorType(v.Type()) }
+
+// errVarOf: matcher for "the error produced by call": the call's error result itself, or a
+// load of the local variable (Alloc) that the result was stored into.
+func errVarOf(call ssa.CallInstruction) core.VM {
+	var allocs []*ssa.Alloc
+	cv, _ := call.(ssa.Value)
+	if cv != nil {
+		var collect func(v ssa.Value)
+		collect = func(v ssa.Value) {
+			if v.Referrers() == nil {
+				return
+			}
+			for _, r := range *v.Referrers() {
+				switch y := r.(type) {
+				case *ssa.Store:
+					if al, ok := y.Addr.(*ssa.Alloc); ok && y.Val == v {
+						allocs = append(allocs, al)
+					}
+				case *ssa.Extract:
+					if isErrorType(y.Type()) {
+						collect(y)
+					}
+				}
+			}
+		}
+		collect(cv)
+	}
+	return func(v ssa.Value) bool {
+		if !isErrorType(v.Type()) {
+			return false
+		}
+		if v == cv {
+			return true
+		}
+		if ex, ok := v.(*ssa.Extract); ok && ex.Tuple == cv {
+			return true
+		}
+		if u, ok := v.(*ssa.UnOp); ok && u.Op == token.MUL {
+			for _, al := range allocs {
+				if u.X == ssa.Value(al) {
+					return true
+				}
+			}
+		}
+		return false
+	}
+}
+
+// constInt returns the value of an integer constant declared in any loaded package.
+func constInt(c *core.Ctx, pkgPath, name string) int64 {
+	n := c.P.ExtConst(pkgPath, name)
+	if n == nil {
+		c.Und("anchors", "const "+pkgPath+"."+name, "-", "constant not found")
+		return -1 << 40
+	}
+	v, _ := constantInt64(n)
+	return v
+}
+
+func constantInt64(c *types.Const) (int64, bool) { return constant.Int64Val(constant.ToInt(c.Val())) }
